@@ -5,73 +5,6 @@ import Pds.Proofs.QuotientUnion3
 namespace Pds.Quotient
 variable {N : Nat}
 
-theorem unionLoop_spec {o : St N} {z0 : Fin N} {qt0 : Nat → Nat} (h0 : LInv o z0 qt0) :
-    ∀ (is : List (Fin N)) (t : St N) (U : Finset (Fin N × Nat)), Rep t U →
-    ∃ t' res, unionLoop o is t = some (t', res) ∧
-      (res = .full ∨ (res = .ok true ∧ ∃ U', Rep t' U' ∧
-        ∀ x, x ∈ U' ↔ (x ∈ U ∨ ∃ b ∈ is, IsStart o b ∧ InCl o z0 qt0 b x))) := by
-  intro is
-  induction is with
-  | nil =>
-    intro t U hr
-    exact ⟨t, .ok true, rfl, Or.inr ⟨rfl, U, hr, fun x => by simp⟩⟩
-  | cons i rest ih =>
-    intro t U hr
-    by_cases hi : IsStart o i
-    · have hcond : ((o.get i).occ && !(o.get i).shift) = true := by simp [hi.1, hi.2]
-      obtain ⟨t1, h1, h2⟩ := union_one h0 hi hr
-      rcases h2 with h2 | ⟨h2, t2, res2, h3, h4⟩
-      · refine ⟨t1, .full, ?_, Or.inl rfl⟩
-        rw [h2] at h1
-        simp [unionLoop, hcond, h1]
-      · have hstep1 : unionLoop o (i :: rest) t =
-            match unionCluster o i (N + 1) (incr i) i [] t1 with
-            | none => none
-            | some (t'', .full) => some (t'', .full)
-            | some (t'', .ok _) => unionLoop o rest t'' := by
-          simp only [unionLoop, hcond, if_true, h1]
-          cases hres : (specStep U (i, (o.get i).rem)).2 with
-          | full => exact absurd hres h2
-          | ok b => rfl
-        rw [hstep1, h3]
-        rcases h4 with h4 | ⟨h4, U2, h5, h6⟩
-        · subst h4
-          exact ⟨t2, .full, rfl, Or.inl rfl⟩
-        · subst h4
-          obtain ⟨t3, res3, h7, h8⟩ := ih t2 U2 h5
-          refine ⟨t3, res3, h7, ?_⟩
-          rcases h8 with h8 | ⟨h8, U3, h9, h10⟩
-          · exact Or.inl h8
-          · refine Or.inr ⟨h8, U3, h9, fun x => ?_⟩
-            rw [h10, h6]
-            constructor
-            · rintro ((hx | hx) | ⟨b, hb, hx⟩)
-              · exact Or.inl hx
-              · exact Or.inr ⟨i, by simp, hi, hx⟩
-              · exact Or.inr ⟨b, by simp [hb], hx⟩
-            · rintro (hx | ⟨b, hb, hs, hx⟩)
-              · exact Or.inl (Or.inl hx)
-              · rcases List.mem_cons.mp hb with rfl | hb
-                · exact Or.inl (Or.inr hx)
-                · exact Or.inr ⟨b, hb, hs, hx⟩
-    · have hcond : ((o.get i).occ && !(o.get i).shift) = false := by
-        cases h1 : (o.get i).occ <;> cases h2 : (o.get i).shift <;> simp_all [IsStart]
-      obtain ⟨t3, res3, h7, h8⟩ := ih t U hr
-      refine ⟨t3, res3, by simp [unionLoop, hcond, h7], ?_⟩
-      rcases h8 with h8 | ⟨h8, U3, h9, h10⟩
-      · exact Or.inl h8
-      · refine Or.inr ⟨h8, U3, h9, fun x => ?_⟩
-        rw [h10]
-        constructor
-        · rintro (hx | ⟨b, hb, hx⟩)
-          · exact Or.inl hx
-          · exact Or.inr ⟨b, by simp [hb], hx⟩
-        · rintro (hx | ⟨b, hb, hs, hx⟩)
-          · exact Or.inl hx
-          · rcases List.mem_cons.mp hb with rfl | hb
-            · exact absurd hs hi
-            · exact Or.inr ⟨b, hb, hs, hx⟩
-
 /-- every stored pair of `o` lies in the cluster of exactly the start found by walking back -/
 theorem mem_iff_inCl {o : St N} {z0 : Fin N} {qt0 : Nat → Nat} (h0 : LInv o z0 qt0)
     (x : Fin N × Nat) :
@@ -102,13 +35,97 @@ theorem mem_iff_inCl {o : St N} {z0 : Fin N} {qt0 : Nat → Nat} (h0 : LInv o z0
   · rintro ⟨b, _, k, _, _, kg, g1, _, g3, rfl⟩
     exact ⟨kg, g1, g3, rfl, rfl⟩
 
+theorem unionLoop_spec {o : St N} {z0 : Fin N} {qt0 : Nat → Nat} (h0 : LInv o z0 qt0) :
+    ∀ (is : List (Fin N)) (t : St N) (U : Finset (Fin N × Nat)), Rep t U →
+    ∃ t' res, unionLoop o is t = some (t', res) ∧
+      ((res = .full ∧ FullWit o z0 qt0 U) ∨ (res = .ok true ∧ ∃ U', Rep t' U' ∧
+        ∀ x, x ∈ U' ↔ (x ∈ U ∨ ∃ b ∈ is, IsStart o b ∧ InCl o z0 qt0 b x))) := by
+  intro is
+  induction is with
+  | nil =>
+    intro t U hr
+    exact ⟨t, .ok true, rfl, Or.inr ⟨rfl, U, hr, fun x => by simp⟩⟩
+  | cons i rest ih =>
+    intro t U hr
+    by_cases hi : IsStart o i
+    · have hcond : ((o.get i).occ && !(o.get i).shift) = true := by simp [hi.1, hi.2]
+      obtain ⟨t1, h1, h2⟩ := union_one h0 hi hr
+      rcases h2 with ⟨h2, hw⟩ | ⟨h2, t2, res2, h3, h4⟩
+      · refine ⟨t1, .full, ?_, Or.inl ⟨rfl, hw⟩⟩
+        rw [h2] at h1
+        simp [unionLoop, hcond, h1]
+      · have hstep1 : unionLoop o (i :: rest) t =
+            match unionCluster o i (N + 1) (incr i) i [] t1 with
+            | none => none
+            | some (t'', .full) => some (t'', .full)
+            | some (t'', .ok _) => unionLoop o rest t'' := by
+          simp only [unionLoop, hcond, if_true, h1]
+          cases hres : (specStep U (i, (o.get i).rem)).2 with
+          | full => exact absurd hres h2
+          | ok b => rfl
+        rw [hstep1, h3]
+        rcases h4 with ⟨h4, hw⟩ | ⟨h4, U2, h5, h6⟩
+        · subst h4
+          exact ⟨t2, .full, rfl, Or.inl ⟨rfl, hw⟩⟩
+        · subst h4
+          obtain ⟨t3, res3, h7, h8⟩ := ih t2 U2 h5
+          refine ⟨t3, res3, h7, ?_⟩
+          rcases h8 with ⟨h8, W, x, w1, w2, w3, w4⟩ | ⟨h8, U3, h9, h10⟩
+          · refine Or.inl ⟨h8, W, x, fun y hy => ?_, w2, w3, w4⟩
+            rcases w1 y hy with hy | hy
+            · rcases (h6 y).mp hy with hy | hy
+              · exact Or.inl hy
+              · exact Or.inr ((mem_iff_inCl h0 y).mpr ⟨i, hi, hy⟩)
+            · exact Or.inr hy
+          · refine Or.inr ⟨h8, U3, h9, fun x => ?_⟩
+            rw [h10, h6]
+            constructor
+            · rintro ((hx | hx) | ⟨b, hb, hx⟩)
+              · exact Or.inl hx
+              · exact Or.inr ⟨i, by simp, hi, hx⟩
+              · exact Or.inr ⟨b, by simp [hb], hx⟩
+            · rintro (hx | ⟨b, hb, hs, hx⟩)
+              · exact Or.inl (Or.inl hx)
+              · rcases List.mem_cons.mp hb with rfl | hb
+                · exact Or.inl (Or.inr hx)
+                · exact Or.inr ⟨b, hb, hs, hx⟩
+    · have hcond : ((o.get i).occ && !(o.get i).shift) = false := by
+        cases h1 : (o.get i).occ <;> cases h2 : (o.get i).shift <;> simp_all [IsStart]
+      obtain ⟨t3, res3, h7, h8⟩ := ih t U hr
+      refine ⟨t3, res3, by simp [unionLoop, hcond, h7], ?_⟩
+      rcases h8 with h8 | ⟨h8, U3, h9, h10⟩
+      · exact Or.inl h8
+      · refine Or.inr ⟨h8, U3, h9, fun x => ?_⟩
+        rw [h10]
+        constructor
+        · rintro (hx | ⟨b, hb, hx⟩)
+          · exact Or.inl hx
+          · exact Or.inr ⟨b, by simp [hb], hx⟩
+        · rintro (hx | ⟨b, hb, hs, hx⟩)
+          · exact Or.inl hx
+          · rcases List.mem_cons.mp hb with rfl | hb
+            · exact absurd hs hi
+            · exact Or.inr ⟨b, hb, hs, hx⟩
+
 theorem union_spec {t o : St N} {S So : Finset (Fin N × Nat)} (hr : Rep t S)
     (ho : Stores o (fun a r => (a, r) ∈ So)) :
-    union t o = some (t, .full) ∨ ∃ t', union t o = some (t', .ok true) ∧ Rep t' (S ∪ So) := by
+    (union t o = some (t, .full) ∧ N < (S ∪ So).card) ∨
+      ∃ t', union t o = some (t', .ok true) ∧ Rep t' (S ∪ So) := by
   obtain ⟨z0, qt0, h0, hP⟩ := ho
   obtain ⟨t', res, h1, h2⟩ := unionLoop_spec h0 (List.finRange N) t S hr
-  rcases h2 with rfl | ⟨rfl, U', h3, h4⟩
-  · left; simp [union, h1]
+  rcases h2 with ⟨rfl, W, x, w1, w2, w3, w4⟩ | ⟨rfl, U', h3, h4⟩
+  · left
+    refine ⟨by simp [union, h1], ?_⟩
+    have hsub : Insert.insert x W ⊆ S ∪ So := by
+      intro y hy
+      rcases Finset.mem_insert.mp hy with rfl | hy
+      · exact Finset.mem_union_right _ ((hP _ _).mp w4)
+      · rcases w1 y hy with hy | hy
+        · exact Finset.mem_union_left _ hy
+        · exact Finset.mem_union_right _ ((hP _ _).mp hy)
+    have := Finset.card_le_card hsub
+    rw [Finset.card_insert_of_notMem w3] at this
+    omega
   · right
     refine ⟨t', by simp [union, h1], ?_⟩
     have : U' = S ∪ So := by
